@@ -787,7 +787,12 @@ func main() {
 	case "fault":
 		// Transform with a failure injected at each write step it performs, all length relations,
 		// plus a failing transformation function
+		// ... each also on a file that exists and is empty (old contents of length zero are contents too)
+		withEmpty := append([]Config{}, configs...)
 		for _, cfg := range configs {
+			withEmpty = append(withEmpty, Config{Prog: cfg.Prog, Init: []string{}})
+		}
+		for _, cfg := range withEmpty {
 			clean := runOne("Fault", "clean", cfg, &vsched.Replay{}, Inject{Kind: "none"})
 			col.add(clean)
 			res.Eval(true)
